@@ -214,11 +214,22 @@ func Check[C any](t *testing.T, p Prop[C]) {
 	if os.Getenv("VERIF_REGRESS_ONLY") != "" {
 		return
 	}
+	var lastFail string
+	t.Cleanup(func() {
+		if t.Failed() && lastFail != "" {
+			t.Logf("last (minimal) failing case:\n%s", lastFail)
+		}
+	})
 	rapid.Check(t, func(rt *rapid.T) {
 		c := p.Gen(rt)
 		r := safeRun(p.Run, c)
 		record(p, c, r)
 		if r.Fail != "" {
+			cb, _ := json.Marshal(c)
+			if len(cb) > 4000 {
+				cb = append(cb[:4000], "..."...)
+			}
+			lastFail = fmt.Sprintf("fail: %s\ncase: %s\ndetail: %s", r.Fail, cb, r.Detail)
 			path := saveFailure(p, c, r)
 			rt.Fatalf("%s [replay=%s]", r.Fail, filepath.Base(path))
 		}
